@@ -59,6 +59,7 @@ class FleetStore(Store):
         self.reserved_events = []     # Maintains events corresponding to reserved items to preserve item order
         self.ready_items=[]  #Maintains the items ready to be taken out
         self.reserved_items   = []   # parallel list of the exact items reserved
+        self.in_transit_items = []   # items that departed with a trip and are not yet delivered
         self._last_level_change_time = self.env.now
         self._last_num_items = 0
         self._weighted_sum = 0.0
@@ -91,13 +92,16 @@ class FleetStore(Store):
             
             print(f"T={self.env.now:.2f}: Fleet activation process triggered.")
             
-            if self.items:
-                print(f"T={self.env.now:.2f}: Fleet activated with {len(self.items)} items ready.")
-                self.env.process(self.move_to_ready_items(self.items))
+            # only the items that are waiting now and are not already on a trip depart
+            batch = [i for i in self.items if not any(i is t for t in self.in_transit_items)]
+            if batch:
+                print(f"T={self.env.now:.2f}: Fleet activated with {len(batch)} items ready.")
+                self.in_transit_items.extend(batch)
+                self.env.process(self.move_to_ready_items(batch))
                 #self.env.process(self.move_to_ready_items(self.items))
-                if self.activate_fleet.triggered:
-                    #print("yes")
-                    self.activate_fleet = self.env.event()  # Reset the event for next activation
+            if self.activate_fleet.triggered:
+                #print("yes")
+                self.activate_fleet = self.env.event()  # Reset the event for next activation
 
     def reserve_put(self, priority=0):
         """
@@ -700,6 +704,7 @@ class FleetStore(Store):
                 
                 item_index = self.items.index(item)
                 item_to_put = self.items.pop(item_index)  # Remove the first item
+                self.in_transit_items.remove(item)
                
                 if len(self.ready_items) < self.capacity:
                     self.ready_items.append(item_to_put)
